@@ -566,6 +566,12 @@ theorem xkeyString_ext {n : Nat} {h0 h : Heap} (e : Ext n h0 h) (pr : Prims) (k 
       · exact paddedAppend_fresh (e5.1.append e5.2 _) (e5.1.fresh_append e5.2 _) 32 _
       · exact (pubKeyBytes_ext e5.1 k).fresh_append e5.2 _
 
+theorem xkeyAddress_ext {n : Nat} {h0 h : Heap} (e : Ext n h0 h) (pr : Prims) (k : XKeyH) (addrID : UInt8) :
+    Ext n h0 (xkeyAddress pr h k addrID).heap := by
+  have ep := pubKeyBytes_ext e k
+  simp only [xkeyAddress]
+  heap_frame
+
 theorem childData_ext {n : Nat} {h0 h : Heap} (e : Ext n h0 h) (k : XKeyH) (i : Nat) :
     Ext n h0 (childData h k i).heap := by
   simp only [childData]
